@@ -15,13 +15,12 @@ func Cmp(a, b *V) (int, error) {
 		return 0, ErrDomain
 	}
 	if ra != rb {
-		if ra < 2 || rb < 2 {
-			if ra < rb {
-				return -1, nil
-			}
-			return 1, nil
+		// null < booleans < numbers < strings. (The property leaves number-vs-string open; the
+		// pinned tree, after its intransitivity repair, ranks numbers first - asserted as observed.)
+		if ra < rb {
+			return -1, nil
 		}
-		return 0, ErrDomain // number vs string
+		return 1, nil
 	}
 	switch ra {
 	case 0:
